@@ -147,7 +147,7 @@ func c13LateVerdict(s *c13LateScn, cOut, sIn *c13Sink, nc, ns int, wait time.Dur
 				why = append(why, "toward the client: "+why2)
 			}
 			if nAct < s.nRelay {
-				why = append(why, fmt.Sprintf("the relay answered %d of %d handshakes (the later transfer was torn down)", nAct, s.nRelay))
+				why = append(why, fmt.Sprintf("the relay answered %d of %d handshakes (a handshake was bypassed or torn down)", nAct, s.nRelay))
 			}
 			return false, strings.Join(why, "; ")
 		}
@@ -196,8 +196,15 @@ func (g *c13GateSink) Write(p []byte) (int, error) {
 
 func c13LateResetPlain(c *ctx, idx, marker int, confirm2 bool, settle time.Duration) {
 	s := c13LateScenario(idx, marker, confirm2)
-	cInR, cInW := io.Pipe()
-	sOutR, sOutW := io.Pipe()
+	rid := fmt.Sprintf("late-%s-%d", s.name, idx)
+	if !c13Only(rid) {
+		return
+	}
+	c13JBegin(rid)
+	defer c13JEnd(rid)
+	cInR, cInW0 := io.Pipe()
+	sOutR, sOutW0 := io.Pipe()
+	cInW, sOutW := &c13JWriter{w: cInW0, id: rid, side: 'c'}, &c13JWriter{w: sOutW0, id: rid, side: 's'}
 	cOut, gate := newC13Sink(), newC13GateSink()
 	sIn := &gate.c13Sink
 	_ = trzsz.NewTrzszRelay(cInR, cOut, gate, sOutR, trzsz.TrzszOptions{})
@@ -278,7 +285,7 @@ func c13LateResetPlain(c *ctx, idx, marker int, confirm2 bool, settle time.Durat
 	good, why := c13LateVerdict(&full, cOut, sIn, len(full.realC), len(full.realS), 2*time.Second)
 	desc := fmt.Sprintf("late reset (slow server) %s #%d", s.name, idx)
 	c.note(true, desc)
-	if !good && !ok { // the script itself lost step before the verdict: not judged
+	if !good && (!ok || cInW.stuck || sOutW.stuck) { // the script itself lost step before the verdict: not judged
 		c.count("late_reset:plain_inconclusive")
 		return
 	}
@@ -358,6 +365,8 @@ func c13GateOf(label string) string {
 		return "HP"
 	case "HD":
 		return "H*"
+	case "HB": // the worker's publication of "handshaking" (late variant of the model)
+		return "HT"
 	case "TU":
 		return "HU"
 	}
@@ -372,7 +381,8 @@ const c13LateFallback = "OR OL OD:09:1 OH OG OS IR IL IK IV IA IP HA:3:o HSA:65:
 type c13SchedJob struct {
 	s      *c13LateScn
 	cut    string // i.k.j of the search, "canonical", "fallback"
-	kind   string
+	kind   string // <variant searched>:<what the model says without the mechanism>
+	what   string // the mechanism of the relay that schedule needs
 	labels []string
 }
 
@@ -401,12 +411,14 @@ func c13SchedReplay(j *c13SchedJob, settle time.Duration) (good bool, why, detai
 	go func() {
 		defer wg.Done()
 		for _, b := range s.realC[:nI] {
+			c13JWrite("sched-"+s.name+"-"+j.cut+"-"+j.kind, 'c', b)
 			cInW.Write(b)
 		}
 	}()
 	go func() {
 		defer wg.Done()
 		for _, b := range s.realS[:nO] {
+			c13JWrite("sched-"+s.name+"-"+j.cut+"-"+j.kind, 's', b)
 			sOutW.Write(b)
 		}
 	}()
@@ -450,7 +462,7 @@ func c13SchedReplay(j *c13SchedJob, settle time.Duration) (good bool, why, detai
 		time.Sleep(3 * time.Millisecond)
 	}
 	c13VlRelease(relay)
-	extra := fmt.Sprintf(" | schedule (cut %s of the canonical turns %s, found on the model without the guard: %s) %s", j.cut, s.turns, j.kind, strings.Join(gates, " "))
+	extra := fmt.Sprintf(" | schedule (cut %s of the canonical turns %s; model variant searched and its verdict there: %s) %s", j.cut, s.turns, j.kind, strings.Join(gates, " "))
 	if !followed {
 		extra += fmt.Sprintf(" | schedule given up at token %d", div)
 	}
@@ -470,42 +482,63 @@ func c13SchedAll(c *ctx, perturbed bool) {
 	}
 	var jobs []*c13SchedJob
 	nScn := c.pick(4, 16)
+	// the model variants that are searched: what the relay must NOT be (the schedules found are
+	// the ones in which the corresponding mechanism of the real relay is at work)
+	variants := []struct{ v, name, what string }{
+		{"10", "reset", "the reset guard (resetToStandby from the expected state only)"},
+		{"01", "publish", "the publication of 'handshaking' in front of the forward of the trigger"},
+	}
 	for k := 0; k < nScn; k++ {
 		marker, confirm2 := k%4, (k/4+k)%2 == 1
 		s := c13LateScenario(1000+c.rng.Intn(80)*100+k, marker, confirm2)
 		c.count("sched:scenarios")
-		// the model with the current source's reset must have no bad schedule in the family
+		// the model of the current source must have no bad schedule in the family
 		c.emit(true, "relay_search", "none", "gen", "0", hxs(s.absC), hxs(s.absS), s.turns)
-		// the schedules that need the guard, found on the model without it
-		ans := c13AskModel("relay_search_list", "1", "0", hxs(s.absC), hxs(s.absS), s.turns, "3")
-		if ans == "" {
-			c.count("sched:model_driver_unavailable")
-			if !confirm2 {
-				jobs = append(jobs, &c13SchedJob{s, "fallback", "stranded", strings.Split(c13LateFallback, " ")})
+		for _, vr := range variants {
+			ans := c13AskModel("relay_search_list", vr.v, "0", hxs(s.absC), hxs(s.absS), s.turns, "3")
+			if ans == "" {
+				c.count("sched:model_driver_unavailable")
+				if !confirm2 && vr.name == "reset" {
+					jobs = append(jobs, &c13SchedJob{s, "fallback", "reset:stranded", vr.what, strings.Split(c13LateFallback, " ")})
+				}
+				continue
 			}
-			continue
-		}
-		parts := strings.Split(ans, "|")
-		var ex, nb int
-		fmt.Sscanf(parts[0], "examined=%d;bad=%d", &ex, &nb)
-		c.stats["sched:model_schedules_examined"] += ex
-		c.stats["sched:model_schedules_needing_guard"] += nb
-		for _, w := range parts[1:] {
-			f := strings.SplitN(w, ";", 3)
-			if len(f) == 3 {
-				jobs = append(jobs, &c13SchedJob{s, f[0], f[1], strings.Split(f[2], " ")})
+			parts := strings.Split(ans, "|")
+			var ex, nb int
+			fmt.Sscanf(parts[0], "examined=%d;bad=%d", &ex, &nb)
+			c.stats["sched:model_schedules_examined"] += ex
+			c.stats["sched:model_schedules_needing_"+vr.name] += nb
+			for _, w := range parts[1:] {
+				f := strings.SplitN(w, ";", 3)
+				if len(f) != 3 {
+					continue
+				}
+				// the same schedule of the family as the model of the CURRENT source executes it
+				var labels string
+				if strings.HasPrefix(f[0], "-1.") {
+					labels = c13AskModel("relay_canon", "gen", "0", hxs(s.absC), hxs(s.absS), s.turns)
+				} else if r := c13AskModel("relay_cut_labels", "gen", "0", hxs(s.absC), hxs(s.absS), s.turns, f[0]); r != "" {
+					if g := strings.SplitN(r, ";", 2); len(g) == 2 {
+						labels = g[1]
+					}
+				}
+				if labels == "" {
+					c.count("sched:model_driver_unavailable")
+					continue
+				}
+				jobs = append(jobs, &c13SchedJob{s, f[0], vr.name + ":" + f[1], vr.what, strings.Split(labels, " ")})
 			}
 		}
-		if can := c13AskModel("relay_canon", "1", "0", hxs(s.absC), hxs(s.absS), s.turns); can != "" && k < 2 {
-			jobs = append(jobs, &c13SchedJob{s, "canonical", "none", strings.Split(can, " ")})
+		if can := c13AskModel("relay_canon", "gen", "0", hxs(s.absC), hxs(s.absS), s.turns); can != "" {
+			jobs = append(jobs, &c13SchedJob{s, "canonical", "canonical", "nothing (the canonical schedule itself)", strings.Split(can, " ")})
 		}
 	}
 	// the stored schedule stays a witness of the model without the guard, and no path with it
 	fb := c13LateScenario(999, 0, false)
-	c.emit(true, "relay_guard_run", "stranded", "1", "0", hxs(fb.absC), hxs(fb.absS), c13LateFallback)
-	c.emit(true, "relay_guard_run", "ok", "0", "0", hxs(fb.absC), hxs(fb.absS), c13LateFallback)
+	c.emit(true, "relay_guard_run", "stranded", "10", "0", hxs(fb.absC), hxs(fb.absS), c13LateFallback)
+	c.emit(true, "relay_guard_run", "ok", "00", "0", hxs(fb.absC), hxs(fb.absS), c13LateFallback)
 	if len(jobs) == 0 {
-		c.violate("relay-sched-inert", "no schedule to replay on the real relay (model search returned nothing without the guard)", "")
+		c.violate("relay-sched-inert", "no schedule to replay on the real relay (the model search returned nothing)", "")
 		return
 	}
 	var mu sync.Mutex
@@ -517,7 +550,10 @@ func c13SchedAll(c *ctx, perturbed bool) {
 		go func(j *c13SchedJob) {
 			defer wg.Done()
 			defer func() { <-sem }()
+			id := "sched-" + j.s.name + "-" + j.cut + "-" + j.kind
+			c13JBegin(id)
 			good, why, detail, followed, trace, gotS, gotC, over := c13SchedReplay(j, settle)
+			c13JEnd(id)
 			mu.Lock()
 			defer mu.Unlock()
 			c.count("sched:replays")
@@ -528,8 +564,8 @@ func c13SchedAll(c *ctx, perturbed bool) {
 				c.count("sched:given_up")
 			}
 			if !good {
-				c.violate("relay-late-reset-sched-"+j.s.name, "a schedule the model needs the reset guard for (one thread delayed in front of one operation, cut "+j.cut+
-					"), replayed on the real relay: "+why, detail)
+				c.violate("relay-sched-"+strings.SplitN(j.kind, ":", 2)[0]+"-"+j.s.name, "a schedule of the family 'one thread delayed in front of one operation' (cut "+j.cut+
+					") in which the model needs "+j.what+", replayed on the real relay: "+why, detail)
 				return
 			}
 			if over || len(trace) == 0 {
@@ -546,3 +582,28 @@ func c13SchedAll(c *ctx, perturbed bool) {
 		c.violate("relay-sched-inert", "the real relay followed none of the scripted schedules: the scheduler of the overlay did not work", fmt.Sprint(c.stats))
 	}
 }
+
+// a pipe writer that journals what it is about to feed
+type c13JWriter struct {
+	w     *io.PipeWriter
+	id    string
+	side  byte
+	stuck bool
+}
+
+// a write the relay does not take within three seconds is given up (the reader is stuck behind
+// something the scenario did not foresee: the run is then not judged), so that the harness
+// itself never blocks for ever
+func (j *c13JWriter) Write(b []byte) (int, error) {
+	c13JWrite(j.id, j.side, b)
+	done := make(chan struct{})
+	go func() { j.w.Write(b); close(done) }()
+	select {
+	case <-done:
+		return len(b), nil
+	case <-time.After(3 * time.Second):
+		j.stuck = true
+		return 0, io.ErrClosedPipe
+	}
+}
+func (j *c13JWriter) Close() error { return j.w.Close() }
